@@ -187,8 +187,38 @@ P = StreamProperty("C18", [ConsistencyOracle], streams, RULE, ("C18",),
                    lambda ops: len(ops[0]["dims"]) >= 2 and ops[-1]["kw"]["dim"] != ops[0]["dims"][0])
 
 
+def grid_correspondence(tier, seed):
+    """the grid of the fitted curve: Lean `fitGrid` (the definition the C18 grid theorems are about) vs fit()['fit'].coords"""
+    from fractions import Fraction
+    from common import rstr
+    rng = random.Random(seed * 7919 + 218)
+    lin = lambda x, a, b: a * x + b
+    ops, got = [], []
+    axes = [np.linspace(0.0, 3.0, 7), np.geomspace(0.01, 5.0, 9), np.linspace(4.0, -2.0, 6), np.array([0.5, 0.1, 2.0, 1.0, 3.5])]
+    for x in axes:
+        for fp in (None, 2, 5, len(x), 17):
+            d = dnp.DNPData(2.0 * x + 1.0, ["t"], [x.copy()])
+            with warnings.catch_warnings():
+                warnings.simplefilter("ignore")
+                out = dnp.fit(lin, d, "t", (1.0, 0.0), fit_points=fp)
+            ops.append(dict({"op": "fitgrid", "coord": [rstr(v) for v in x]}, **({} if fp is None else {"fit_points": fp})))
+            got.append(np.asarray(out["fit"].coords["t"], dtype=float))
+    outs, _ = run_model(ops)
+    bad = []
+    for op, o, g in zip(ops, outs, got):
+        if o.get("outcome") != "ok":
+            bad.append({"diffs": [o.get("outcome")], "ops": [op], "stream": -1, "explained_by_known": False}); continue
+        m = np.array([float(Fraction(v)) for v in o["grid"]])
+        if m.shape != g.shape or not np.allclose(m, g, rtol=1e-12, atol=1e-15):
+            bad.append({"diffs": ["fit-grid"], "ops": [op], "stream": -1, "explained_by_known": False})
+    return len(ops), bad
+
+
 def run(tier, seed, escalate=False):
     res = P.run(tier, seed, escalate)
+    ng, mg = grid_correspondence(tier, seed)
+    res["mismatches"] += mg
+    res["evaluations"] += ng
     f1, n1 = recovery_oracle(tier, seed)
     f2, m2, n2 = lineshape_checks(tier, seed)
     seen = {f["key"] for f in res["impl_failures"]}
